@@ -2,6 +2,9 @@ import Lean.Data.Json
 import Gsp.Model.Poseidon
 import Gsp.Model.Hasher
 import Gsp.Model.Xsd
+import Gsp.Model.Rdf
+import Gsp.Model.Smt
+import Gsp.Model.Mz
 /-! Line-protocol driver: one JSON case per line on stdin, one `{"id","out"}` per line on stdout. Core-only. -/
 open Lean Gsp
 
@@ -84,11 +87,128 @@ def opPreHashBytes (k : Pos.Consts) (inp : Json) : Except String Json := do
   let bs := unhex (← jstr inp "hex").toList
   pure (match h.hashBytes bs with | some n => okJ (natJ n) | none => errJ "hash")
 
+
+/-! ### RDF / merklizer ops -/
+open Rdf in
+def refOf (j : Json) : Except String Rdf.Ref := do
+  let t ← jstr j "t"
+  let v ← jstr j "v"
+  pure ⟨if t == "blank" then .blank else .iri, v⟩
+
+def objOf (j : Json) : Except String Rdf.Obj := do
+  let t ← jstr j "t"
+  let v ← jstr j "v"
+  match t with
+  | "iri" => pure (.iri v)
+  | "blank" => pure (.blank v)
+  | _ => pure (.lit v ((jstr j "dt").toOption.getD ""))
+
+def quadOf (j : Json) : Except String Rdf.Quad := do
+  let s ← refOf (← j.getObjVal? "s")
+  let p ← jstr j "p"
+  let o ← objOf (← j.getObjVal? "o")
+  let g ← match jopt j "g" with
+    | none => pure none
+    | some gj => do pure (some (← refOf gj))
+  pure ⟨s, p, o, g⟩
+
+def datasetOf (j : Json) : Except String Rdf.Dataset := do
+  (← j.getArr?).toList.mapM fun gj => do
+    let name ← jstr gj "name"
+    let qs ← (← (← gj.getObjVal? "quads").getArr?).toList.mapM quadOf
+    pure (name, qs)
+
+def partJ : Rdf.PathPart → Json
+  | .s v => Json.str v
+  | .i n => Json.num n
+
+def partsOf (j : Json) : Except String (List Rdf.PathPart) := do
+  (← j.getArr?).toList.mapM fun x => match x with
+    | .str s => pure (Rdf.PathPart.s s)
+    | .num n => pure (Rdf.PathPart.i n.mantissa.toNat)
+    | _ => throw "bad path part"
+
+def xvalJ : Xsd.XVal → List (String × Json)
+  | .int v => [("kind", "int"), ("v", toString v)]
+  | .bool b => [("kind", "bool"), ("v", if b then "true" else "false")]
+  | .time t => [("kind", "time"), ("v", toString t)]
+  | .str s => [("kind", "str"), ("v", s)]
+
+def entryJ (e : Rdf.Entry) : Json :=
+  Json.mkObj ([("k", Json.arr (e.key.map partJ).toArray)] ++ xvalJ e.value ++ [("dt", Json.str e.datatype)])
+
+def opRdfEntries (k : Pos.Consts) (inp : Json) : Except String Json := do
+  let h ← hasherOf k (← inp.getObjVal? "h")
+  let ds ← datasetOf (← inp.getObjVal? "ds")
+  pure (exceptJ (fun es => Json.arr (es.map entryJ).toArray) (Rdf.entries (canonTable inp) h.prime ds))
+
+def treeHash (k : Pos.Consts) : List Nat → Nat := fun xs => (Pos.hash k xs).getD 0
+
+def proofJ (p : Smt.Proof) : List (String × Json) :=
+  [("ex", Json.bool p.existence), ("sib", Json.arr (p.siblings.map natJ).toArray),
+   ("aux", match p.aux with | none => Json.null | some (a, b) => Json.arr #[natJ a, natJ b])]
+
+def opMzDoc (k : Pos.Consts) (inp : Json) : Except String Json := do
+  let h ← hasherOf k (← inp.getObjVal? "h")
+  let ds ← datasetOf (← inp.getObjVal? "ds")
+  let P := treeHash k
+  let qs ← match jopt inp "queries" with
+    | none => pure []
+    | some qj => (← qj.getArr?).toList.mapM partsOf
+  match Mz.merklize (canonTable inp) P h ds with
+  | .error e => pure (errJ e)
+  | .ok mz =>
+    let qres := qs.map fun q =>
+      match Mz.proof P h mz q with
+      | .error e => errJ e
+      | .ok r =>
+        let vh : Json := match r.value with
+          | none => Json.null
+          | some v => match Xsd.enc h v with | .ok x => natJ x | .error _ => Json.str "enc-error"
+        let kind : Json := match r.value with
+          | none => Json.null
+          | some v => ((xvalJ v).lookup "kind").getD Json.null
+        let ent := match Mz.entry h mz q with | .ok e => Json.str e.datatype | .error _ => Json.null
+        Json.mkObj (proofJ r.proof ++ [("kind", kind), ("vh", vh), ("dt", ent)])
+    pure (okJ (Json.mkObj [
+      ("entries", Json.arr (mz.kvs.map (fun x => entryJ x.entry)).toArray),
+      ("root", natJ (Mz.root P mz)),
+      ("leaves", Json.num (Smt.leaves mz.tree).length),
+      ("q", Json.arr qres.toArray)]))
+
+/-- pure SMT op stream -/
+def opSmtRun (k : Pos.Consts) (inp : Json) : Except String Json := do
+  let P := treeHash k
+  let ops ← (← (← inp.getObjVal? "ops").getArr?).toList.mapM fun o => do
+    let name ← jstr o "o"
+    let key ← jnatS (← o.getObjVal? "k")
+    let v := (jopt o "v").bind fun x => (jnatS x).toOption
+    pure (name, key, v.getD 0)
+  let rec go : List (String × Nat × Nat) → Smt.T → List Json → List Json
+    | [], _, acc => acc.reverse
+    | (name, key, v) :: rest, t, acc =>
+      if name == "add" then
+        match Smt.add key v t 0 Smt.maxLevels with
+        | .ok t' => go rest t' (okJ (natJ (Smt.T.hash P t')) :: acc)
+        | .error e => go rest t (errJ (match e with | .maxLevel => "max-level" | .exists_ => "exists" | .notFound => "not-found") :: acc)
+      else if name == "proof" then
+        match Smt.genProof P key t 0 Smt.maxLevels [] with
+        | .ok p =>
+          let val := Smt.lookup key t 0
+          let ver := Smt.verify P (Smt.T.hash P t) p key (val.getD v)
+          go rest t (okJ (Json.mkObj (proofJ p ++ [("verifies", Json.bool ver)])) :: acc)
+        | .error _ => go rest t (errJ "gen-proof" :: acc)
+      else go rest t (errJ "bad-op" :: acc)
+  pure (Json.arr (go ops .empty []).toArray)
+
 def handle (k : Pos.Consts) (op : String) (inp : Json) : Except String Json :=
   match op with
   | "pre.hash" => opPreHash k inp
   | "pre.hashbytes" => opPreHashBytes k inp
   | "xsd.hash" => opXsdHash k inp
+  | "rdf.entries" => opRdfEntries k inp
+  | "mz.doc" => opMzDoc k inp
+  | "smt.run" => opSmtRun k inp
   | _ => throw s!"unknown op {op}"
 
 def step (k : Pos.Consts) (line : String) : String :=
